@@ -73,7 +73,7 @@ def run(ctx):
     for i in range(ctx.budget(400, 8000)):
         if ctx.out_of_time():
             break
-        case = gen_mol.cut_case(rng, nmax=12 if ctx.tier == 'quick' else 24)
+        case = gen_mol.cut_case(rng, nmax=12 if ctx.tier == 'quick' else 24, anno_p=rng.choice([0, 0, 0, 0.2]))
         suites.run_resolve_case(ctx, 'mol-cut', case, oracle=oracle)
         ctx.feature('frags=%d' % case['nfrag'])
 
